@@ -1,5 +1,5 @@
 // ---- mulalg_lemmas.rs: lemmas shared by the multiplication algorithm units (Karatsuba, Toom-3, dispatch, sqr).
-// Needs lib/prelude.rs, lib/sign.rs, lib/mul_lemmas.rs (lemma_valn_window), lib/mulalg_stubs.rs (sign_mul, sign_neg).
+// Needs lib/prelude.rs, lib/sign.rs, lib/mul_lemmas.rs, lib/mulalg_stubs.rs (sign_mul, sign_neg), lib/mulalg_core_lemmas.rs.
 
 /// sgn(s)·x by cases (Z3 does not linearise `sgn(s) * x` by itself)
 pub proof fn lemma_sgn(s: Sign, x: int)
@@ -9,97 +9,6 @@ pub proof fn lemma_sgn(s: Sign, x: int)
         Sign::Positive => { assert(1 * x == x); }
         Sign::Negative => { assert((-1) * x == -x); }
     }
-}
-
-pub proof fn lemma_pw0()
-    ensures pw(0) == 1,
-{
-}
-
-pub proof fn lemma_val_empty()
-    ensures forall|s: Seq<Word>| s.len() == 0 ==> #[trigger] valn(s, s.len() as int) == 0,
-{
-}
-
-pub proof fn lemma_val_zeros(s: Seq<Word>)
-    requires forall|i: int| 0 <= i < s.len() ==> s[i] == 0,
-    ensures val(s) == 0,
-{
-    lemma_valn_zero(s, 0, s.len() as int);
-}
-
-pub proof fn lemma_val_bound(s: Seq<Word>)
-    ensures 0 <= val(s) < pw(s.len() as int),
-{
-    lemma_valn_bound(s, s.len() as int);
-}
-
-/// 0 <= a < p, 0 <= b < q  ==>  0 <= a·b < p·q
-pub proof fn lemma_prod_bound(a: int, b: int, p: int, q: int)
-    requires 0 <= a < p, 0 <= b < q,
-    ensures 0 <= a * b, a * b < p * q,
-{
-    assert(0 <= a * b) by (nonlinear_arith) requires 0 <= a, 0 <= b;
-    assert(a * b <= (p - 1) * (q - 1)) by (nonlinear_arith) requires 0 <= a <= p - 1, 0 <= b <= q - 1;
-    assert((p - 1) * (q - 1) < p * q) by (nonlinear_arith) requires 1 <= p, 1 <= q;
-}
-
-/// product of two word sequences fits |a| + |b| words
-pub proof fn lemma_val_prod_bound(a: Seq<Word>, b: Seq<Word>)
-    ensures 0 <= val(a) * val(b) < pw((a.len() + b.len()) as int),
-{
-    lemma_val_bound(a);
-    lemma_val_bound(b);
-    lemma_prod_bound(val(a), val(b), pw(a.len() as int), pw(b.len() as int));
-    lemma_pw_add(a.len() as int, b.len() as int);
-}
-
-/// c ±= x with signed carry r into a buffer of weight p: the carry is -1, 0 or 1
-pub proof fn lemma_signed_carry_range(v1: int, v0: int, x: int, r: int, p: int)
-    requires 0 <= v1 < p, 0 <= v0 < p, -p < x < p, v1 + r * p == v0 + x,
-    ensures -1 <= r <= 1,
-{
-    assert(-2 < r < 2) by (nonlinear_arith) requires -2 * p < r * p, r * p < 2 * p, p > 0;
-}
-
-/// a product accumulated into a zero buffer of exactly its size: no carry
-pub proof fn lemma_zero_acc_no_carry(v1: int, x: int, r: int, p: int)
-    requires 0 <= v1 < p, 0 <= x < p, v1 + r * p == x,
-    ensures r == 0, v1 == x,
-{
-    assert(-1 < r < 1) by (nonlinear_arith) requires -p < r * p, r * p < p, p > 0;
-}
-
-/// the window [lo, hi) of c was updated (c0 -> c1) by `window += x` with signed carry r at its top:
-/// seen from the whole buffer, `c += x·B^lo` with carry r at weight B^hi.
-/// (the frame is stated with subranges: the form in which Verus describes `callee(&mut c[lo..hi])`)
-pub proof fn lemma_window(c0: Seq<Word>, c1: Seq<Word>, lo: int, hi: int, r: int, x: int)
-    requires 0 <= lo <= hi <= c0.len(), c1.len() == c0.len(),
-        c1.subrange(0, lo) =~= c0.subrange(0, lo),
-        c1.subrange(hi, c0.len() as int) =~= c0.subrange(hi, c0.len() as int),
-        val(c1.subrange(lo, hi)) + r * pw(hi - lo) == val(c0.subrange(lo, hi)) + x,
-    ensures val(c1) + r * pw(hi) == val(c0) + x * pw(lo),
-{
-    let len = c0.len() as int;
-    assert forall|j: int| 0 <= j < lo implies c1[j] == c0[j] by {
-        assert(c1[j] == c1.subrange(0, lo)[j]);
-        assert(c0[j] == c0.subrange(0, lo)[j]);
-    }
-    assert forall|j: int| hi <= j < len implies c1[j] == c0[j] by {
-        assert(c1[j] == c1.subrange(hi, len)[j - hi]);
-        assert(c0[j] == c0.subrange(hi, len)[j - hi]);
-    }
-    lemma_valn_window(c0, lo, hi - lo);
-    lemma_valn_window(c1, lo, hi - lo);
-    lemma_valn_ext(c1, c0, lo);
-    lemma_valn_tail(c0, c1, hi, len);
-    lemma_pw_add(lo, hi - lo);
-    let w0 = val(c0.subrange(lo, hi));
-    let w1 = val(c1.subrange(lo, hi));
-    let pl = pw(lo);
-    let pd = pw(hi - lo);
-    assert(pl * (w1 + r * pd) == pl * w1 + r * (pl * pd)) by (nonlinear_arith);
-    assert(pl * (w0 + x) == pl * w0 + x * pl) by (nonlinear_arith);
 }
 
 // ---- Karatsuba (mul/karatsuba.rs) ---------------------------------------------------------------------------
@@ -229,15 +138,6 @@ pub open spec fn chunk_fn_ok<F: Fn(&mut [Word], Sign, &[Word], &[Word], &mut Mem
                 ==> #[trigger] f.requires((cc, s, aa, bb, mm))
     &&& forall|cc: &mut [Word], s: Sign, aa: &[Word], bb: &[Word], mm: &mut Memory, r: SignedWord|
             #[trigger] f.ensures((cc, s, aa, bb, mm), r) ==> mul_post(cc@, final(cc)@, s, aa@, bb@, r as int)
-}
-
-pub proof fn lemma_val_concat(s: Seq<Word>, t: Seq<Word>)
-    ensures val(s + t) == val(s) + pw(s.len() as int) * val(t),
-{
-    let u = s + t;
-    lemma_val_split(u, s.len() as int);
-    assert(u.subrange(0, s.len() as int) =~= s);
-    assert(u.subrange(s.len() as int, u.len() as int) =~= t);
 }
 
 /// loop invariant of add_signed_mul_split_into_chunks: `done` = the low words of the result that are final,
@@ -381,17 +281,4 @@ pub proof fn lemma_chunks_fin(done: Seq<Word>, ca: Seq<Word>, cb: Seq<Word>, cc:
     lemma_val_bound(c_orig);
     lemma_sgn(s, val(a) * val(b));
     lemma_signed_carry_range(val(fin), val(c_orig), sgn(s) * (val(a) * val(b)), k2 + r, pw(c_orig.len() as int));
-}
-
-pub proof fn lemma_pw_le(a: int, b: int)
-    requires 0 <= a <= b,
-    ensures 1 <= pw(a) <= pw(b),
-    decreases b
-{
-    lemma_pw_pos(a);
-    if a < b {
-        lemma_pw_le(a, b - 1);
-        assert(pw(b) == B() * pw(b - 1));
-        assert(pw(b - 1) <= B() * pw(b - 1)) by (nonlinear_arith) requires pw(b - 1) >= 1, B() >= 1;
-    }
 }
